@@ -7,9 +7,9 @@ the Go code then returns `rest = s`, which the callers never look at).  Callback
 modelled as the list of argument tuples, reported on success only (the only in-tree consumer,
 http2 `parseRFC9218Priority`, discards everything when `ok == false`).
 
-Loops whose next input is the `rest` of a sub-parser use fuel `len(s) + 1`; every iteration
-consumes at least one byte (`fuel_*` theorems in Proofs/C56 show the fuel never runs out on
-accepted inputs; the differential tie covers the rest).
+Loops whose next input is the `rest` of a sub-parser use fuel `len(s) + 1`; every iteration of
+the Go loops consumes at least one byte, so the fuel cannot run out (not proved in Lean: covered
+by the differential tie; `parseList_roundtrip_partial` shows it suffices on serialised lists).
 
 Go standard-library functions used by the code and modelled here from their Go source:
 `utf8.FullRune`, `utf8.DecodeRune` (for `consumeDisplayString`), `strconv.ParseInt` on an
